@@ -62,9 +62,8 @@ def sig(params, varkw):
     return ", ".join(parts)
 
 
-def module_source(fam):
-    out = ["import abc", "from typing import Optional", "LOG = []", ""]
-    by_name = {c["name"]: c for c in fam["classes"]}
+def _class_source(fam, c):
+    by_name = {k["name"]: k for k in fam["classes"]}
 
     def ancestors(name, acc):
         for p in by_name[name]["parents"]:
@@ -73,32 +72,54 @@ def module_source(fam):
                 ancestors(p, acc)
         return acc
 
+    out = []
+    bases = ", ".join(c["parents"]) if c["parents"] else "metaclass=abc.ABCMeta"
+    out.append("class %s(%s):" % (c["name"], bases))
+    names = [p["name"] for p in c["params"]]
+    # a required parameter may not follow a defaulted one in Python: make everything keyword-only
+    out.append("    def __init__(%s):" % sig(c["params"], c["varkw"]))
+    kw = ", ".join("%s=%s" % (n, n) for n in names)
+    if c["varkw"]:
+        kw = (kw + ", " if kw else "") + "**kw"
+    out.append("        LOG.append((id(self), type(self).__name__, dict(%s)))" % kw)
+    if c["abstract"]:
+        out.append("    @abc.abstractmethod")
+        out.append("    def am_%s(self): ..." % c["name"])
+    else:
+        for a in [c["name"]] + ancestors(c["name"], []):
+            if by_name[a]["abstract"]:
+                out.append("    def am_%s(self): return 0" % a)
+    out.append("")
+    return out
+
+
+def _func_source(f):
+    names = [p["name"] for p in f["params"]]
+    return ["def %s(%s) -> %s:" % (f["name"], sig(f["params"], None), f["ret"]),
+            "    return %s(%s)" % (f["ret"], ", ".join("%s=%s" % (n, n) for n in names)), ""]
+
+
+def module_source(fam):
+    out = ["import abc", "from typing import Optional", "LOG = []", ""]
     for c in fam["classes"]:
-        bases = ", ".join(c["parents"]) if c["parents"] else "metaclass=abc.ABCMeta"
-        out.append("class %s(%s):" % (c["name"], bases))
-        names = [p["name"] for p in c["params"]]
-        # a required parameter may not follow a defaulted one in Python: make everything keyword-only
-        out.append("    def __init__(%s):" % sig(c["params"], c["varkw"]))
-        kw = ", ".join("%s=%s" % (n, n) for n in names)
-        if c["varkw"]:
-            kw = (kw + ", " if kw else "") + "**kw"
-        out.append("        LOG.append((id(self), type(self).__name__, dict(%s)))" % kw)
-        if c["abstract"]:
-            out.append("    @abc.abstractmethod")
-            out.append("    def am_%s(self): ..." % c["name"])
-        else:
-            for a in [c["name"]] + ancestors(c["name"], []):
-                if by_name[a]["abstract"]:
-                    out.append("    def am_%s(self): return 0" % a)
-        out.append("")
+        out += _class_source(fam, c)
     for f in fam["funcs"]:
-        names = [p["name"] for p in f["params"]]
-        out.append("def %s(%s) -> %s:" % (f["name"], sig(f["params"], None), f["ret"]))
-        out.append("    return %s(%s)" % (f["ret"], ", ".join("%s=%s" % (n, n) for n in names)))
-        out.append("")
+        out += _func_source(f)
     for k in fam["consts"]:
         out.append("%s = 5" % k)
     return "\n".join(out) + "\n"
+
+
+def growth_source(fam, have):
+    """source of the classes/functions of `fam` that the loaded module does not have yet (a plugin loaded later)"""
+    out = []
+    for c in fam["classes"]:
+        if c["name"] not in have:
+            out += _class_source(fam, c)
+    for f in fam["funcs"]:
+        if f["name"] not in have:
+            out += _func_source(f)
+    return "\n".join(out) + "\n" if out else ""
 
 
 def render_raw(r):
@@ -111,13 +132,17 @@ def render_raw(r):
     return json.dumps(py_value(r))
 
 
-def argv_of(steps):
+def argv_of(steps, opt="x"):
     args = []
     for st in steps:
+        if "cfg" in st:      # one config source: {option: raw, ...}
+            args.append("--cfg=%s" % json.dumps({k: py_value(v) for k, v in st["cfg"]}))
+            continue
+        o = st.get("opt", opt)
         if "nested" in st:
-            args.append("--x.%s=%s" % (".".join(st["nested"]), render_raw(st["raw"])))
+            args.append("--%s.%s=%s" % (o, ".".join(st["nested"]), render_raw(st["raw"])))
         else:
-            args.append("--x=%s" % render_raw(st["raw"]))
+            args.append("--%s=%s" % (o, render_raw(st["raw"])))
     return args
 
 
@@ -147,60 +172,129 @@ def value_json(v):
 
 
 def observe(mod, base, dflt, steps, channel):
+    return observe_multi(mod, [{"name": "x", "base": base, "dflt": dflt}], steps, channel)[0]
+
+
+def observe_multi(mod, opts, steps, channel):
+    """opts: [{"name", "base", "dflt"}] class-typed options of one parser (in this order); steps: argv items
+    (for option "opt", default the first) and config sources. Returns one observation per option."""
     from jsonargparse import ArgumentError, ArgumentParser
 
+    n = len(opts)
     parser = ArgumentParser(exit_on_error=False)
-    kw = {}
-    if dflt is not None:
-        kw["default"] = py_value(dflt)
+    if any("cfg" in st for st in steps):
+        parser.add_argument("--cfg", action="config")
     try:
-        parser.add_argument("--x", type=getattr(mod, base), **kw)
+        for o in opts:
+            kw = {}
+            if o["dflt"] is not None:
+                kw["default"] = py_value(o["dflt"])
+            parser.add_argument("--" + o["name"], type=getattr(mod, o["base"]), **kw)
     except Exception as e:  # noqa
-        return {"exc": "add_argument:" + type(e).__name__}
+        return [{"exc": "add_argument:" + type(e).__name__}] * n
     try:
         if channel == "object":
-            cfg = parser.parse_object({"x": py_value(steps[0]["raw"])})
+            cfg = parser.parse_object({opts[0]["name"]: py_value(steps[0]["raw"])})
         else:
-            cfg = parser.parse_args(argv_of(steps))
+            cfg = parser.parse_args(argv_of(steps, opts[0]["name"]))
     except ArgumentError:
-        return {"rej": 1}
+        return [{"rej": 1}] * n
     except SystemExit as e:
-        return {"exc": "SystemExit(%s)" % e.code}
+        return [{"exc": "SystemExit(%s)" % e.code}] * n
     except BaseException as e:  # noqa
-        return {"exc": type(e).__name__}
-    acc = value_json(cfg.clone().__dict__.get("x"))
+        return [{"exc": type(e).__name__}] * n
+    accs = [value_json(cfg.clone().__dict__.get(o["name"])) for o in opts]
     del mod.LOG[:]
     try:
         init = parser.instantiate_classes(cfg)
     except (TypeError, ValueError):  # a TypeError below an Optional[...] parameter is re-raised as ValueError
-        return {"acc": acc, "inst": {"typeerr": 1}}
+        return [{"acc": a, "inst": {"typeerr": 1}} for a in accs]
     except BaseException as e:  # noqa
-        return {"acc": acc, "inst": {"other": type(e).__name__}}
-    ids = {}
-    log = []
-    for n, (oid, cname, kwargs) in enumerate(mod.LOG):
-        ids[oid] = n
+        return [{"acc": a, "inst": {"other": type(e).__name__}} for a in accs]
+    full = list(mod.LOG)
+    # the constructor calls of each option: instantiate_classes goes through the options in order, the object of an
+    # option is the last one built for it; anything left over after the last option stays visible in its segment
+    segs, start = [], 0
+    roots = [init.__dict__.get(o["name"]) for o in opts]
+    for i, r in enumerate(roots):
+        pos = [k for k in range(start, len(full)) if full[k][0] == id(r)] if type(r).__module__ == mod.__name__ else []
+        stop = (pos[-1] + 1) if pos else start
+        if i == n - 1:
+            stop = len(full)
+        segs.append(full[start:stop])
+        start = stop
+    out = []
+    for a, r, seg in zip(accs, roots, segs):
+        ids = {}
+        for k, (oid, cname, kwargs) in enumerate(seg):
+            ids[oid] = k
 
-    def arg(o):
-        if isinstance(o, bool):
-            return {"weird": repr(o)}
-        if isinstance(o, int):
-            return {"i": o}
-        if isinstance(o, str):
-            return {"s": o}
-        if o is None:
-            return {"null": 1}
-        if id(o) in ids and type(o).__module__ == mod.__name__:
-            return {"ref": ids[id(o)]}
-        return {"weird": repr(o)[:100]}
+        def arg(o):
+            if isinstance(o, bool):
+                return {"weird": repr(o)}
+            if isinstance(o, int):
+                return {"i": o}
+            if isinstance(o, str):
+                return {"s": o}
+            if o is None:
+                return {"null": 1}
+            if id(o) in ids and type(o).__module__ == mod.__name__:
+                return {"ref": ids[id(o)]}
+            return {"weird": repr(o)[:100]}
 
-    for oid, cname, kwargs in mod.LOG:
-        log.append([cname, [[k, arg(v)] for k, v in kwargs.items()]])
-    root = arg(init.x)
-    # the object is of exactly the class its constructor-log entry names
-    if "ref" in root and type(init.x).__name__ != log[root["ref"]][0]:
-        root = {"weird": "type mismatch"}
-    return {"acc": acc, "inst": {"ok": {"root": root, "log": log}}}
+        log = [[cname, [[k, arg(v)] for k, v in kwargs.items()]] for oid, cname, kwargs in seg]
+        root = arg(r)
+        # the object is of exactly the class its constructor-log entry names
+        if "ref" in root and type(r).__name__ != log[root["ref"]][0]:
+            root = {"weird": "type mismatch"}
+        out.append({"acc": a, "inst": {"ok": {"root": root, "log": log}}})
+    return out
+
+
+def load_family(tmp, fam):
+    with open("%s/%s.py" % (tmp, fam["mod"]), "w") as f:
+        f.write(module_source(fam))
+    importlib.invalidate_caches()
+    return importlib.import_module(fam["mod"])
+
+
+def grow_family(tmp, mod, fam):
+    """a plugin is loaded: classes/functions of `fam` the module does not have yet are appended to its file and defined in it"""
+    have = set(vars(mod))
+    src = growth_source(fam, have)
+    if not src:
+        return
+    import linecache
+
+    path = "%s/%s.py" % (tmp, fam["mod"])
+    before = open(path).read()
+    with open(path, "a") as f:
+        f.write(src)
+    linecache.checkcache(path)
+    linecache.clearcache()
+    code = compile("\n" * before.count("\n") + src, path, "exec")  # line numbers as in the file (inspect.getsource)
+    exec(code, mod.__dict__)
+
+
+def run_case(tmp, mods, case):
+    fam = case["fam"]
+    first = case["warm"]["fam"] if case.get("warm") else fam
+    mod = mods.get(fam["mod"])
+    if mod is None:
+        mod = mods[fam["mod"]] = load_family(tmp, first)
+    res = {"twin": None}
+    if case.get("warm"):
+        w = case["warm"]
+        res["warm"] = observe(mod, w["base"], w["dflt"], w["steps"], "argv")
+    grow_family(tmp, mod, fam)
+    if case.get("multi"):
+        obs = observe_multi(mod, case["multi"]["opts"], case["multi"]["argv"], "argv")
+        res["main"], res["sibs"] = obs[0], obs[1:]
+        return res
+    res["main"] = observe(mod, case["base"], case["dflt"], case["steps"], case.get("channel", "argv"))
+    if case.get("twin") is not None:
+        res["twin"] = observe(mod, case["base"], case["dflt"], case["twin"], "argv")
+    return res
 
 
 def main():
@@ -208,20 +302,14 @@ def main():
     tmp = tempfile.mkdtemp(prefix="jv_c14_")
     sys.path.insert(0, tmp)
     results = []
+    mods = {}
     try:
         for bn, batch in enumerate(payload["batches"]):
-            fam = batch["fam"]
-            with open("%s/%s.py" % (tmp, fam["mod"]), "w") as f:
-                f.write(module_source(fam))
-            importlib.invalidate_caches()
-            mod = importlib.import_module(fam["mod"])
             res = []
             for case in batch["cases"]:
-                main_obs = observe(mod, case["base"], case["dflt"], case["steps"], case.get("channel", "argv"))
-                twin_obs = None
-                if case.get("twin") is not None:
-                    twin_obs = observe(mod, case["base"], case["dflt"], case["twin"], "argv")
-                res.append({"main": main_obs, "twin": twin_obs})
+                c = dict(case)
+                c.setdefault("fam", batch["fam"])
+                res.append(run_case(tmp, mods, c))
             results.append(res)
     finally:
         shutil.rmtree(tmp, ignore_errors=True)
